@@ -55,6 +55,13 @@ def gen_type(ch, label, profile):
 def gen_desc(ch, profile="conservative", min_params=1, max_params=5, label="desc"):
     n = ch.int(label + ".n", min_params, max_params)
     names = ch.sample(label + ".names", WORDS, n)
+    if n >= 2 and ch.chance(label + ".related", 0.2):
+        # names that contain one another (decay / lr_decay, rate / max_rate, x / x_scale): neighbours in the interface
+        i = ch.int(label + ".rel.i", 0, n - 2)
+        how = ch.choice(label + ".rel.how", ["max_%s", "lr_%s", "%s_scale", "%s2"])
+        names[i + 1] = how % names[i]
+        if ch.chance(label + ".rel.swap", 0.3):
+            names[i], names[i + 1] = names[i + 1], names[i]
     params = []
     seen_default = False
     for i, name in enumerate(names):
@@ -319,7 +326,7 @@ def render_argparse(desc, name="set_cli_args", indent=""):
 
 
 # ------------------------------------------------------- unrelated statements
-def unrelated_statements(ch, label, colliding, k, after_def=None):
+def unrelated_statements(ch, label, colliding, k, after_def=None, local_name=None):
     """k statements that have nothing to do with the named definition, some of them sharing
     parameter / method names with it (colliding = names of the target's parameters and function).
     after_def: name bound by the definition when these statements follow it (they may then *use* or re-bind that name)."""
@@ -327,6 +334,7 @@ def unrelated_statements(ch, label, colliding, k, after_def=None):
     kinds = ["import", "const", "helper", "helper_collide", "class_same_method", "nested_class", "assign_collide", "ann_const"]
     if after_def:
         kinds = kinds + ["rebind", "rebind_ann", "use_after"]
+    kinds = kinds + ["async_local_class", "def_local_class"]
     for i in range(k):
         kind = ch.choice("%s.u%d.kind" % (label, i), kinds)
         tag = "%s%d" % (label.replace(".", "_").replace("-", "_"), i)
@@ -345,6 +353,14 @@ def unrelated_statements(ch, label, colliding, k, after_def=None):
             src = "%s_alias: type = %s" % (after_def, after_def) if ch.chance("%s.u%d.al" % (label, i), 0.5) else "%s: object = %s" % (after_def, after_def)
         elif kind == "use_after":
             src = "INSTANCES_%s = [%s]" % (tag.upper(), after_def)
+        elif kind == "async_local_class":
+            # a coroutine with a local class that carries the name of the synchronised definition
+            tname = colliding[0] if colliding else "Config"
+            src = ("async def fetch_%s(session):\n    class %s(object):\n        retries: int = 3\n\n    return await session.get(%s)"
+                   % (tag, local_name or tname, local_name or tname))
+        elif kind == "def_local_class":
+            tname = colliding[0] if colliding else "Config"
+            src = ("def build_%s(flag=True):\n    class %s(object):\n        enabled: bool = flag\n\n    return %s" % (tag, local_name or tname, local_name or tname))
         elif kind == "helper":
             src = "def helper_%s(x, y=2):\n    \"\"\"helper\"\"\"\n    return x + y" % tag
         elif kind == "helper_collide":
